@@ -885,6 +885,28 @@ def check_C05(ctx):
 
 
 # ------------------------------------------------------------------ C08
+def folded_constant_cases(rng, n):
+    """variable-free sub-trees whose folded value is tiny, huge, or next to an integer, placed where the
+    value matters (factor, argument of log / reciprocal, numerator, exponent): constant folding must keep it"""
+    x, y = ('V', 2), ('V', 3)
+    tiny = [('NthPow', ('C', 1e-5), 3), ('Exp', ('C', -30), E), ('Mul', [('C', 6.674e-11), ('C', 1e-3)]),
+            ('Recip', ('C', 3e14)), ('Exp', ('C', -200), 2), ('Divide', ('C', 1), ('NthPow', ('C', 10), 15)),
+            ('NthPow', ('C', 1e-3), 7), ('Sin', ('C', math.pi)), ('Minus', ('C', 0.1 + 0.2), ('C', 0.3))]
+    huge = [('NthPow', ('C', 1e5), 4), ('Exp', ('C', 40), E), ('Mul', [('C', 3e8), ('C', 3e8)])]
+    near = [('Divide', ('C', 0.3), ('C', 0.1)), ('Mul', [('C', 0.1), ('C', 3), ('C', 10)]), ('Add', [('C', 0.1), ('C', 0.2), ('C', 0.7)]),
+            ('Mul', [('C', 0.29), ('C', 100)]), ('Add', [('C', 1), ('C', 1e-13)]), ('Minus', ('C', 5), ('C', 1e-12))]
+    out = []
+    for _ in range(n):
+        c = rng.choice(tiny + tiny + huge + near)
+        ctx_ = rng.choice([
+            lambda c: ('Mul', [c, x]), lambda c: ('Log', ('Mul', [c, x]), E), lambda c: ('Recip', ('Mul', [x, c])),
+            lambda c: ('Divide', ('Sin', x), ('Mul', [c, x])), lambda c: ('Add', [('Mul', [c, x]), y]),
+            lambda c: ('Power', x, c), lambda c: ('Mul', [c, ('NthPow', x, 2), y]), lambda c: ('Minus', x, ('Mul', [c, y])),
+            lambda c: ('NthRoot', ('Mul', [c, x]), 3), lambda c: ('Exp', ('Mul', [c, x]), 2)])
+        out.append(ctx_(c))
+    return out
+
+
 def check_C08(ctx):
     rng, tier = ctx.rng, ctx.tier
     rep = Report('C08')
@@ -895,6 +917,7 @@ def check_C08(ctx):
     pats = gen.rule_patterns(rng, [2, 3], per_pattern=sizes(tier, 1, 4))
     exprs = [gen.in_context(rng, p, [2, 3]) for p in pats]
     exprs += expr_pool(rng, sizes(tier, 250, 5000), max_size=14, with_patterns=False)
+    exprs += folded_constant_cases(rng, sizes(tier, 40, 600))
     pre = ['SYNFWD 2 %s' % sx.to_sx(e) for e in exprs[:sizes(tier, 150, 2000)] if sx.size(e) <= 7]
     for s in core.run_model(pre):
         try:
